@@ -101,5 +101,30 @@ mutate2 "both builds, mul: ADOXQ BP,BX -> ADOXQ AX,BX (round 1)" '134s/ADOXQ BP,
 mutate2 "both builds, mul: MULXQ R8 -> MULXQ R9 (round 2)" '146s/MULXQ R8/MULXQ R9/' '143s/MULXQ R8/MULXQ R9/' || fail=1
 mutate2 "both builds, fromMont: q<>+8 -> q<>+16 (round 3)" '429s/q<>+8(SB)/q<>+16(SB)/' '413s/q<>+8(SB)/q<>+16(SB)/' || fail=1
 mutate2 "both builds, mul: ADCXQ BP,R15 -> ADOXQ (round 2)" '145s/ADCXQ/ADOXQ/' '142s/ADCXQ/ADOXQ/' || fail=1
+# ---- changes of the file set / preprocessing that the TRANSLATOR must reject (no Coq run):
+# they leave the three translated files' instruction lists unchanged (or asmgen's reading of
+# them) while the Go tool chain assembles or links something else
+treject() {
+  local name=$1; shift
+  rm -rf "$S/repo/ff"; cp -r "$REPO/ff" "$S/repo/ff"
+  ( cd "$S/repo/ff" && eval "$@" ) || { echo "$name: seeded change did not apply"; return 2; }
+  rm -f "$S/verif/coq/Gen/FfAsm.v"
+  if out=$("$ASMGEN" "$S/repo" "$S/verif" 2>&1); then
+    echo "$name: NOT DETECTED (translator exit 0)"; rm -rf "$S/repo/ff"; cp -r "$REPO/ff" "$S/repo/ff"; return 1
+  fi
+  echo "$name: DETECTED by the translator: $(echo "$out" | head -1 | cut -c1-200)"
+  rm -rf "$S/repo/ff"; cp -r "$REPO/ff" "$S/repo/ff"; return 0
+}
+treject "ops file tagged out, modified copy in a new .s file" "sed '83s/CMOVQCC/CMOVQCS/' $OPS > element_ops2_amd64.s && sed -i '1i // +build ignore\n' $OPS" || fail=1
+treject "ops file tagged out only" "sed -i '1i //go:build ignore\n' $OPS" || fail=1
+treject "token-level macro renames an opcode" "sed -i '28i #define CMOVQCC CMOVQCS' $OPS" || fail=1
+treject "token-level macro renames a register" "sed -i '28i #define R12 R13' $OPS" || fail=1
+treject "local textflag.h shadows the standard header" "printf '#define NOSPLIT 4\n#define ADCQ ADDQ\n' > textflag.h" || fail=1
+treject "NO_LOCAL_POINTERS defined as code" "sed -i 's|^#include \"funcdata.h\"|#define NO_LOCAL_POINTERS MOVQ \$0, AX|' $MUL" || fail=1
+treject "frame smaller than the outgoing slots" "sed -i 's|^TEXT ·mul(SB), \$24-24|TEXT ·mul(SB), \$16-24|' $MUL" || fail=1
+treject "octal offset 016(SI)" "sed -i '77s/16(SI)/016(SI)/' $OPS" || fail=1
+treject "go:linkname rebinding add" "sed -i 's|^func add(res, x, y \*Element)|//go:linkname add github.com/iden3/go-iden3-crypto/v2/ff._subGeneric\nfunc add(res, x, y *Element)|' element_ops_amd64.go" || fail=1
+treject "supportAdx forced to true" "sed -i 's|^var supportAdx = .*|var supportAdx = true|' asm.go" || fail=1
+treject "mul/adx build tags swapped" "sed -i '1s/.*/\/\/ +build amd64_adx/' $MUL && sed -i '1s/.*/\/\/ +build !amd64_adx/' $ADX" || fail=1
 [ $fail = 0 ] && echo "selftest: every seeded change was detected" || echo "selftest: SOME SEEDED CHANGES WERE NOT DETECTED"
 exit $fail
